@@ -144,5 +144,10 @@ def names(k: int, v: int) -> bool:
         if not why(len(ms) == 1 and ms[0].parts == (t,), "name selector", q, [m.parts for m in ms]):
             return ok(False)
     else:
-        ms = list(ENV.finditer(QUERIES_NAMES[QI], doc))
+        if P.get("route") == "async":
+            from vlib.hs import alist, drive
+
+            ms = drive(alist(drive(ENV.finditer_async(QUERIES_NAMES[QI], doc))))
+        else:
+            ms = list(ENV.finditer(QUERIES_NAMES[QI], doc))
     return ok(_check_matches(doc, ms))
